@@ -103,7 +103,7 @@ func init() {
 		Explain: "Decides that a failed write cannot end in success: C17-R1 must-flow — for every call of bufio.Writer.Flush, csv.Writer.Error, template Execute, every write that bypasses a sticky buffer, and every repository function that can return such an error (Reporter.Flush implementations, command functions, up to main), on every path on which the call fails the enclosing function returns a non-nil error (a deferred call whose result is dropped violates this); " +
 			"C17-R2 every Flush implementation reaches its writer's Flush/Error on every path that can return nil; " +
 			"C17-R3 no ParseCallback returns an error with stop=false (the parser would drop it). Every failing byte offset k is the single abstract event 'Flush returned non-nil' because buffered writers keep the first error.",
-		NotDecided: "behaviour of the kernel on a closed pipe (SIGPIPE ends the process first), whether each command creates its reporter over the configured output at all",
+		NotDecided:  "behaviour of the kernel on a closed pipe (SIGPIPE ends the process first), whether each command creates its reporter over the configured output at all",
 		Assumptions: []string{"bufio.Writer and csv.Writer remember the first write error and return it from Flush()/Error()", "urfave/cli App.Run returns the action's error"},
 		Run: func(c *core.Ctx) {
 			runErrorFlow(c, "C17-R1", outputSeed(c.P))
